@@ -5,6 +5,7 @@
 package main
 
 import (
+	"encoding/json"
 	"fmt"
 	"math"
 	"sort"
@@ -195,9 +196,67 @@ func idxList(d []int) string {
 // ---------- operation generators ----------
 
 type op struct {
-	kind  int   // 0 Put/Add, 1 Remove, 2 Clear
-	k, v  int   // universe indexes (maps / bidi)
-	items []int // sets: the variadic batch
+	kind  int      // 0 Put/Add, 1 Remove, 2 Clear, 3 UnmarshalJSON of a document into the container as it is
+	k, v  int      // universe indexes (maps / bidi)
+	items []int    // sets: the variadic batch; kind 3: the elements of the document
+	doc   [][2]int // kind 3, maps / bidi: the members of the document, in document order
+}
+
+// Some operations become "UnmarshalJSON(document)": the container, in whatever state it is, loads a document with distinct keys
+// (and distinct values, so that it is also a valid bidi-map document); the code decodes, clears and re-inserts, so the container must
+// then hold exactly the document's contents - a decoder that merges into the used container does not.
+func injectLoads(rng *vhlib.Rng, ops []op, u, vu int) []op {
+	for i := range ops {
+		if rng.Intn(10) != 0 {
+			continue
+		}
+		n := rng.Intn(u + 1)
+		if n > vu {
+			n = vu
+		}
+		ks, vs := rng.Perm(u), rng.Perm(vu)
+		o := op{kind: 3}
+		for j := 0; j < n; j++ {
+			o.doc = append(o.doc, [2]int{ks[j], vs[j]})
+			o.items = append(o.items, ks[j])
+		}
+		if rng.Intn(4) == 0 && len(o.items) > 0 {
+			o.items = append(o.items, o.items[0]) // a set document may repeat an element
+		}
+		ops[i] = o
+	}
+	return ops
+}
+
+type unmarshaler interface{ UnmarshalJSON([]byte) error }
+
+func jtext(v interface{}) string {
+	b, err := json.Marshal(v)
+	if err != nil {
+		panic(err)
+	}
+	return string(b)
+}
+
+// member name of a key in a hashmap / linkedhashmap / hashbidimap document: the key's text as a JSON string
+func hashName(k interface{}) string {
+	t := jtext(k)
+	if t[0] == '"' {
+		return t
+	}
+	return jtext(t)
+}
+func load(c interface{}, doc string) {
+	if err := c.(unmarshaler).UnmarshalJSON([]byte(doc)); err != nil {
+		panic(fmt.Sprint("UnmarshalJSON(", doc, "): ", err))
+	}
+}
+func pairList(doc [][2]int) string {
+	it := make([]string, len(doc))
+	for i, kv := range doc {
+		it[i] = fmt.Sprintf("(%d, %d)", kv[0], kv[1])
+	}
+	return vhlib.List(it)
 }
 
 var profiles = []string{"churn", "putheavy", "delheavy", "dup", "asc", "desc", "zigzag", "readd"}
@@ -386,11 +445,22 @@ func runMap[K comparable](w *vhlib.Writer, d *dom[K], mm mapMaker[K], safe bool,
 			case 1:
 				term, lab, h = fmt.Sprintf("MRemove %d", o.k), "Remove", fmt.Sprintf("Remove(%s)", d.desc[o.k])
 				m.Remove(d.univ[o.k])
+			case 3:
+				var ms []string
+				for _, kv := range o.doc {
+					ms = append(ms, hashName(d.univ[kv[0]])+":"+fmt.Sprint(kv[1]))
+				}
+				doc := "{" + strings.Join(ms, ",") + "}"
+				term, lab, h = "MLoad "+pairList(o.doc), "UnmarshalJSON", "UnmarshalJSON("+doc+")"
+				load(m, doc)
 			default:
 				term, lab, h = "MClear", "Clear", "Clear()"
 				m.Clear()
 			}
 		})
+		if o.kind != 3 {
+			term = "MOp (" + term + ")"
+		}
 		snap := panicMS
 		if !p {
 			snap = snapMap(d, m)
@@ -544,7 +614,20 @@ func runSet[K comparable](w *vhlib.Writer, rng *vhlib.Rng, d *dom[K], sm setMake
 		if s.Size() > 0 {
 			nontrivial = true
 		}
-		p, _ := vhlib.Recover(func() { term, lab, h = applySetOp(d, s, o) })
+		p, _ := vhlib.Recover(func() {
+			if o.kind == 3 {
+				var es []string
+				for _, x := range o.items {
+					es = append(es, jtext(d.univ[x]))
+				}
+				doc := "[" + strings.Join(es, ",") + "]"
+				term, lab, h = "SLoad "+idxList(o.items), "UnmarshalJSON", "UnmarshalJSON("+doc+")"
+				load(s, doc)
+				return
+			}
+			term, lab, h = applySetOp(d, s, o)
+			term = "SOp (" + term + ")"
+		})
 		snap := panicSS
 		if !p {
 			q := make([]int, rng.Intn(4))
@@ -554,7 +637,7 @@ func runSet[K comparable](w *vhlib.Writer, rng *vhlib.Rng, d *dom[K], sm setMake
 			snap = snapSet(d, s, q)
 		}
 		if term == "" {
-			term, lab, h = "SClear", "panic", "panic before the call"
+			term, lab, h = "SOp SClear", "panic", "panic before the call"
 		}
 		steps = append(steps, "("+term+", "+snap+")")
 		labels = append(labels, lab)
@@ -719,11 +802,26 @@ func runBidi[K comparable, V comparable](w *vhlib.Writer, dk *dom[K], dv *dom[V]
 			case 1:
 				term, lab, h = fmt.Sprintf("BRemove %d", o.k), "Remove", fmt.Sprintf("Remove(%s)", dk.desc[o.k])
 				m.Remove(dk.univ[o.k])
+			case 3:
+				var ms []string
+				for _, kv := range o.doc {
+					if strings.HasPrefix(bm.cname, "treebidimap") { // treebidimap: member name = the key's JSON text, value = the value's JSON text as a string
+						ms = append(ms, jtext(jtext(dk.univ[kv[0]]))+":"+jtext(jtext(dv.univ[kv[1]])))
+					} else {
+						ms = append(ms, hashName(dk.univ[kv[0]])+":"+jtext(dv.univ[kv[1]]))
+					}
+				}
+				doc := "{" + strings.Join(ms, ",") + "}"
+				term, lab, h = "BLoad "+pairList(o.doc), "UnmarshalJSON", "UnmarshalJSON("+doc+")"
+				load(m, doc)
 			default:
 				term, lab, h = "BClear", "Clear", "Clear()"
 				m.Clear()
 			}
 		})
+		if o.kind != 3 {
+			term = "BOp (" + term + ")"
+		}
 		snap := panicBS
 		if !p {
 			snap = snapBidi(dk, dv, m)
@@ -753,6 +851,9 @@ func randomMaps[K comparable](w *vhlib.Writer, rng *vhlib.Rng, mkDom func() *dom
 				d := mkDom()
 				prof := profiles[rng.Intn(len(profiles))]
 				ops := genOps(rng, len(d.univ), 4, 1+rng.Intn(22), prof, false)
+				if d.tname != "ptr" { // pointer keys have no JSON form
+					ops = injectLoads(rng, ops, len(d.univ), 4)
+				}
 				runMap(w, d, mm, safe, ops, prof)
 			}
 		}
@@ -765,6 +866,9 @@ func randomSets[K comparable](w *vhlib.Writer, rng *vhlib.Rng, mkDom func() *dom
 				d := mkDom()
 				prof := profiles[rng.Intn(len(profiles))]
 				ops := genOps(rng, len(d.univ), 1, 1+rng.Intn(20), prof, true)
+				if d.tname != "ptr" {
+					ops = injectLoads(rng, ops, len(d.univ), len(d.univ))
+				}
 				runSet(w, rng, d, sm, safe, ops, prof)
 			}
 			for i := 0; i < areps; i++ {
@@ -789,6 +893,9 @@ func randomBidi[K comparable, V comparable](w *vhlib.Writer, rng *vhlib.Rng, mkK
 				dk, dv := mkK(), mkV()
 				prof := profiles[rng.Intn(len(profiles))]
 				ops := genOps(rng, len(dk.univ), len(dv.univ), 1+rng.Intn(24), prof, false)
+				if dk.tname != "ptr" && dv.tname != "ptr" {
+					ops = injectLoads(rng, ops, len(dk.univ), len(dv.univ))
+				}
 				runBidi(w, dk, dv, bm, safe, ops, prof)
 			}
 		}
@@ -894,7 +1001,8 @@ func main() {
 	w.Close(o, "one case = one operation sequence (Put/Add/Remove/Clear, batches of 0-3 items for sets) on one container kind, key type (int, string, "+
 		"pointer with pairs of pointers to equal structs) and plain/Safe variant, snapshotted after every mutation (Size, Empty, Keys, Values, Get/Contains/GetKey over "+
 		"the whole universe, table dump and backward walk of the linked containers), or one set-algebra call with operands built by such sequences and re-read after "+
-		"the call and after mutating result and operands; streams: all words of length 4 (thorough 5) over a 3-key pointer universe (linked map/set) and a 2x2 universe "+
+		"the call and after mutating result and operands; one operation in ten (int / string keys) is UnmarshalJSON of a document with distinct keys and values into the container as it "+
+		"is (the code clears and re-inserts: the reference is Clear followed by the Puts / the Add); streams: all words of length 4 (thorough 5) over a 3-key pointer universe (linked map/set) and a 2x2 universe "+
 		"(bidi maps, built-in and subtracting comparators), plus tree-backed sets / bidi-maps built with user comparators a-b, b-a, (b-a)*7, (a-b)*3, k*strings.Compare and a struct-field "+
 		"comparator on pointer keys over universes with gaps of varying size, plus profiled random sequences (churn, put-heavy, delete-heavy, duplicates, ascending, descending, zig-zag, remove-and-re-add); distinct = distinct "+
 		"case terms; non-trivial = some mutation was applied to a non-empty container (algebra: both operands non-empty)")
